@@ -1,0 +1,18 @@
+//go:build verif
+
+package k8s
+
+import (
+	corev1 "k8s.io/api/core/v1"
+	"k8s.io/apimachinery/pkg/util/sets"
+
+	"github.com/AliyunContainerService/terway/types/daemon"
+)
+
+// VerifParseBandwidth exposes parseBandwidth to the verification harness.
+func VerifParseBandwidth(s string) (uint64, error) { return parseBandwidth(s) }
+
+// VerifConvertPod exposes convertPod to the verification harness.
+func VerifConvertPod(daemonMode string, enableErdma bool, kinds sets.Set[string], pod *corev1.Pod) *daemon.PodInfo {
+	return convertPod(daemonMode, enableErdma, kinds, pod)
+}
